@@ -27,7 +27,7 @@ From Verif.Base Require Import Bytes.
 From Verif.Codec Require Import Packets Decode Encode.
 From Verif.Gateway Require Import GwTypes GwStep GwWf.
 From Verif.Client Require Import ClTypes ClStep.
-From Verif.System Require Import Compose ComposeProofs ComposeProofs2_aux ComposeProofs2 ComposeProofs3_aux ComposeProofs3 ComposeLoss ComposeLoss2 ComposeSleep ComposeSleepQ1 ComposeSleepQ2.
+From Verif.System Require Import Compose ComposeProofs ComposeProofs2_aux ComposeProofs2 ComposeProofs3_aux ComposeProofs3 ComposeLoss ComposeLoss2 ComposeSleep ComposeSleepQ1 ComposeSleepQ2 ComposeSleepQ2b.
 From Verif.Checkers Require Import ChkCodec ChkE2E.
 Open Scope N_scope.
 
@@ -224,6 +224,35 @@ Theorem C26_sleep_cycle_with_a_qos2_message_holds_the_PUBREL :
       y_c2g_k y' = (y_c2g_k y + 3)%nat /\ y_g2c_k y' = (y_g2c_k y + 3)%nat.
 Proof. exact C26_sleep_cycle_q2_message. Qed.
 Print Assumptions C26_sleep_cycle_with_a_qos2_message_holds_the_PUBREL.
+
+(* ... and over TWO sleep cycles the QoS 2 message is delivered exactly once: the second Sleep (from the awake
+   state, sends nothing) wakes before the gateway's PUBREL retry; at that wake-up PINGREQ, PUBREL, PINGRESP, the
+   handler (once, QoS 2, the message's flags and ID), PUBCOMP, and the broker gets PUBCOMP.  Over the whole run:
+   one handler invocation, the broker receives exactly PUBREC then PUBCOMP, both Sleep calls return nil, and
+   client and gateway end idle (AwakeS, nothing remembered, no transaction, no timer). *)
+Theorem C26_qos2_message_is_delivered_once_over_two_sleep_cycles :
+  forall cfg y subs id ms s dup retain mid payload d id2 ms2 d2,
+    QuietS cfg y subs -> 1000 <= ms -> ms / 1000 < 65536 ->
+    gw_keepalive (y_gw y) = 0 \/ ms / 1000 <= gw_keepalive (y_gw y) ->
+    ms < retry_delay (e_gw cfg) ->
+    In s subs -> 1 <= mid < 65536 -> okb payload = true -> okb (k_cid (e_cl cfg)) = true ->
+    (forall i, (i <= 4)%nat -> nth_fault (e_c2g cfg) (y_c2g_k y + i) = FDeliver) ->
+    (forall i, (i <= 4)%nat -> nth_fault (e_g2c cfg) (y_g2c_k y + i) = FDeliver) ->
+    ms <= d -> d + ms2 < ms + retry_delay (e_gw cfg) -> ms2 <= d2 ->
+    let t := gw_now (y_gw y) in
+    let m := MqPublish dup 2 retain (sub_topic s) mid payload in
+    exists oss y', sys_run cfg y [SCall id (ASleep ms); SBpub m; SAdv d; SCall id2 (ASleep ms2); SAdv d2] = (oss, y') /\
+      oss = [[SoC2G t FDeliver (pack (Disconnect (ms / 1000))); SoG2C t FDeliver (pack (Disconnect 0))];
+             [SoBS t m];
+             wake_trace_q2 cfg (t + ms) id s dup retain mid payload;
+             [];
+             wake_trace_q2b cfg (t + d + ms2) id2 s dup retain mid payload] /\
+      cbs_full (concat oss) = [(sub_id s, sub_topic s, payload, 2, retain, dup, mid)] /\
+      brs_of (concat oss) = [MqPubrec mid; MqPubcomp mid] /\
+      rets_of (concat oss) = [(id, ROk); (id2, ROk)] /\
+      AwakeS cfg y' subs [] /\ gw_now (y_gw y') = t + d + d2 /\ y_br y' = y_br y.
+Proof. exact ComposeSleepQ2b.C26_qos2_message_is_delivered_once_over_two_sleep_cycles. Qed.
+Print Assumptions C26_qos2_message_is_delivered_once_over_two_sleep_cycles.
 
 (* the refutation, as a history of the end-to-end monitor: lossless link, the subscription in place,
    two broker messages back to back on one new topic -> clause (26,4); one after the other -> none *)
